@@ -331,8 +331,18 @@ func resp3To2(val3 respValue) (value respValue) {
 	switch v := val3.data.(type) {
 	case respSimpleString, respErrorString, respInt, respBulkString:
 		value.data = v
-	case respDouble, respBool, respBigNumber, respVerbatimString:
-		value.data = respSimpleString(fmt.Sprintf("%s", v))
+	case respBool:
+		// RESP2 has no boolean: 1 / 0
+		if v {
+			value.data = respInt(1)
+		} else {
+			value.data = respInt(0)
+		}
+	case respDouble, respBigNumber:
+		value.data = respBulkString(fmt.Sprintf("%s", v))
+	case respVerbatimString:
+		// the text only (no format prefix), as a bulk string: it may contain line breaks
+		value.data = respBulkString(v.text)
 	case respBlobError:
 		value.data = respErrorString(v.String())
 	case respMap:
@@ -418,8 +428,8 @@ func resp3PairsToResp2(val respPairs) (a respArray) {
 	a = make(respArray, 0, len(val)*2)
 
 	for _, pair := range val {
-		a = append(a, pair.key)
-		a = append(a, pair.value)
+		a = append(a, resp3To2(pair.key))
+		a = append(a, resp3To2(pair.value))
 	}
 	return
 }
